@@ -23,7 +23,7 @@ import ast
 from xfabsa import core, numeric as N, rotref as RR
 from xfabsa.core import AnalysisError
 from xfabsa.poly import Rat, ATOM_ARGS, atom_info, sqrt_of, func_atom
-from xfabsa.symeval import Evaluator, sym_array, Arr, Opaque, scalar, materialise, angle_range_sign
+from xfabsa.symeval import Evaluator, sym_array, Arr, Opaque, scalar, materialise, angle_range_sign, vkey
 
 
 def vec3(v, what):
@@ -413,7 +413,7 @@ def run(ctx):
             return NotImplemented
         t = scalar(Evaluator(mod, inline=True, call_policy=cp).call_function("tth", [uc, hkl, lam]))
         want = 2 * N.ref("arcsin(x)", {"x": lam * Rat.atom("sintl(unit_cell,hkl)")})
-        okargs = len(calls) == 1 and calls[0][0] is uc and calls[0][1] is hkl
+        okargs = len(calls) >= 1 and all(vkey(c_[0]) == vkey(uc) and vkey(c_[1]) == vkey(hkl) for c_ in calls)
         ctx.check(t.equals(want) and okargs, "C09:tth:%s.tth" % short, "tth is not 2*arcsin(wavelength*sintl(unit_cell, hkl)): %s" % N.short(t),
                   core.loc(mod, fn))
         fn = mod.func("tth2"); ctx.saw(mod, fn)
